@@ -89,6 +89,10 @@ def document(seed, nblocks=6, ncontracts=1, with_noasm=True, max_len=14, multi_d
     for c in range(ncontracts):
         init = blockgen.gen_blocks(rng.getrandbits(32), max(1, nblocks // 3), max_len=max_len, allow_terminal=False, **kw)
         runb = blockgen.gen_blocks(rng.getrandbits(32), nblocks, max_len=max_len, allow_terminal=False, **kw)
+        # blocks GASOL improves (so they get a log entry) that contain a byte store, a word store and a storage write
+        runb.insert(rng.randint(0, len(runb)), rng.choice([
+            "PUSH 3 PUSH 4 ADD DUP2 MSTORE8", "PUSH 3 PUSH 4 ADD DUP2 MSTORE8 PUSH 0 PUSH 1 ADD POP",
+            "DUP1 PUSH 0 ADD PUSH 1f MSTORE8 PUSH 2 PUSH 3 MUL DUP2 SSTORE", "PUSH 1 PUSH 2 ADD PUSH 40 MSTORE PUSH 5 PUSH 0 ADD DUP2 MSTORE8"]))
         if failing and c == 0:
             runb.insert(rng.randint(1, max(1, len(runb) - 1)), rng.choice(FAILING_BLOCKS))
         if first_blocks is None:
